@@ -186,55 +186,80 @@ func variantPipelines(x *Ctx) {
 	}
 }
 
-func singleDoor(x *Ctx) {
+// readerDoors lists the functions that store an entry into a container.Reader.
+func readerDoors(x *Ctx) map[string]*ssa.Function {
 	readerT := load.Module + "/pkg/container.Reader"
-	bad := ""
-	n := 0
+	out := map[string]*ssa.Function{}
 	for _, f := range x.P.ModuleFuncs() {
 		if !x.P.IsLibrary(f) {
 			continue
 		}
 		for _, b := range f.Blocks {
 			for _, in := range b.Instrs {
-				mu, ok := in.(*ssa.MapUpdate)
-				if !ok || mu.Map.Type().String() != readerT {
-					continue
-				}
-				n++
-				if load.ShortName(f) != "("+ctnPkg+"Reader).addToken" {
-					bad += x.P.Pos(in.Pos()) + ": entry stored into a container.Reader in " + load.ShortName(f) + "\n"
+				if mu, ok := in.(*ssa.MapUpdate); ok && mu.Map.Type().String() == readerT {
+					out[load.ShortName(f)] = f
 				}
 			}
 		}
 	}
-	x.C.Obl("C17.R2", "who-stores", "-", "map stores into container.Reader occur only in addToken", bad == "" && n == 1, bad)
-	if f := x.fn("C17.R2", "("+ctnPkg+"Reader).addToken"); f != nil {
-		fs := "call[token.FromSealed](arg0)"
-		sel, _, _ := x.E.Select(f, paths.WantSuccess)
-		ok := len(sel) > 0
+	return out
+}
+
+// singleDoor: wherever an entry is stored into a Reader (in addToken today; in the reading loops themselves if it
+// is written out there), it is the token returned by token.FromSealed(data) under the CID the same call
+// returned, on a path that knows the call to have succeeded.
+func singleDoor(x *Ctx) {
+	readerT := load.Module + "/pkg/container.Reader"
+	doors := readerDoors(x)
+	var names []string
+	for n := range doors {
+		names = append(names, n)
+	}
+	sort.Strings(names)
+	x.C.Obl("C17.R2", "who-stores", "-", "entries are stored into a container.Reader somewhere in the library (each site is checked below)", len(names) >= 1, strings.Join(names, " "))
+	for _, name := range names {
+		f := doors[name]
+		ok, n := true, 0
 		detail := ""
-		for _, v := range sel {
-			found := false
-			v.Instrs(func(in ssa.Instruction) {
-				if mu, isMU := in.(*ssa.MapUpdate); isMU {
-					found = true
-					if v.Term(mu.Key).String() != fs+"#1" || v.Term(mu.Value).String() != fs+"#0" || v.Term(mu.Map).String() != "recv" {
-						ok = false
-						detail += fmt.Sprintf("stores %s under %s\n", v.Term(mu.Value), v.Term(mu.Key))
-					}
+		for _, p := range x.pathsQuiet(f) {
+			p.InstrsIn(func(in ssa.Instruction, c *paths.Ctx) {
+				mu, isMU := in.(*ssa.MapUpdate)
+				if !isMU || mu.Map.Type().String() != readerT {
+					return
+				}
+				n++
+				k, v := c.Term(mu.Key), c.Term(mu.Value)
+				good := k.Op == "extract" && v.Op == "extract" && k.Name == "#1" && v.Name == "#0" && len(k.Args) == 1 && len(v.Args) == 1 &&
+					k.Args[0].String() == v.Args[0].String() && k.Args[0].Op == "call" && k.Args[0].Name == "token.FromSealed"
+				if !good {
+					ok = false
+					detail += fmt.Sprintf("%s: stores %s under %s: not the token and the CID returned by one call of token.FromSealed\n", x.P.Pos(in.Pos()), v, k)
+					return
+				}
+				if !p.HasFact(eqs(k.Args[0].String()+"#2", "const(nil)"), true) {
+					ok = false
+					detail += fmt.Sprintf("%s: the entry is stored on a path that does not know token.FromSealed to have succeeded\n", x.P.Pos(in.Pos()))
 				}
 			})
-			if !found || !v.HasFact(eqs(fs+"#2", "const(nil)"), true) {
-				ok = false
-				detail += "success without storing, or FromSealed's error unchecked\n"
-			}
 		}
-		x.C.Obl("C17.R2", "addToken", x.pos(f), "addToken stores the token returned by token.FromSealed(data) under the CID it returned, only after its success", ok, detail)
+		x.C.Obl("C17.R2", "door:"+name, x.pos(f), "stores the token returned by token.FromSealed(data) under the CID it returned, only after its success", ok && n > 0, dedupLines(detail))
 	}
 }
 
 func allOrNothing(x *Ctx) {
-	add := func(n string, ct *paths.Term) bool { return n == "("+ctnPkg+"Reader).addToken" }
+	// what adds a token: a call of a function that stores into a Reader, or - where the store is written out in
+	// the loop itself - the call of token.FromSealed whose results are stored
+	doors := readerDoors(x)
+	add := func(n string, ct *paths.Term) bool { return doors[n] != nil || n == "token.FromSealed" }
+	dataArg := func(ct *paths.Term) string {
+		if ct.Name == "token.FromSealed" && len(ct.Args) >= 1 {
+			return ct.Args[0].String()
+		}
+		if len(ct.Args) == 2 {
+			return ct.Args[1].String()
+		}
+		return ""
+	}
 	// CAR: the yield function of the range-over-func loop
 	if y := x.fn("C17.R3", ctnPkg+"FromCarReader$1"); y != nil {
 		x.noPath("C17.R3", "car:iterator-error", y, paths.WantTrue, atoms(map[string]bool{"eq(arg1,const(nil))": false}), 0, "the CAR loop does not continue after the block iterator yielded an error")
@@ -246,7 +271,7 @@ func allOrNothing(x *Ctx) {
 		for _, p := range x.pathsQuiet(y) {
 			for _, c := range p.Calls() {
 				ct := p.Term(c)
-				if add(ct.Name, ct) && len(ct.Args) == 2 && ct.Args[1].String() == "arg0.data" {
+				if (ct.Op == "call") && add(ct.Name, ct) && dataArg(ct) == "arg0.data" {
 					okD = true
 				}
 			}
